@@ -1,7 +1,7 @@
 (* C02: mesh-level idempotence — slicing the result again with the same plane returns the same triangles. *)
 From Coq Require Import ZArith Reals Lra List Bool Lia Arith Sorted Permutation.
 From PW Require Import Num NumR Vec NpList Result.
-From PW.model Require Import M_slicing.
+From PW.model Require Import M_slicing M_slicing_spec.
 From PW.proofs Require Import P_nplist P_slicing P_slicing_face P_slicing_cover P_slicing_mesh P_slicing_perface.
 Import ListNotations.
 
@@ -79,4 +79,62 @@ Proof.
       unfold mesh_tris. apply map_eq_by_nth; [exact Hl|]. intros i d Hi. destruct (Hrows _ _ Hi) as (Hf & _ & Hlk).
       exists (fd_f d). split; [exact Hf|symmetry; exact Hlk]. }
     rewrite EQ in Hp. exact Hp.
+Qed.
+
+(* ---- with a mask: the second call selects output face j iff the first call selected its source face mapping[j] ---- *)
+Lemma nth_error_zip_intro {A B} (a : list A) (b : list B) j x y :
+  nth_error a j = Some x -> nth_error b j = Some y -> nth_error (zip a b) j = Some (x, y).
+Proof.
+  revert b j. induction a as [|p a IH]; intros [|q b] [|j]; cbn [zip nth_error]; try discriminate.
+  - intros [= <-] [= <-]. reflexivity.
+  - apply IH.
+Qed.
+
+Theorem slice_idempotent_masked tol eps vs fs n o fi mask mask2 r r2 : (0 <= tol)%R -> vs <> [] ->
+  slice_faces_plane ROps tol eps vs fs n o fi = Ok r ->
+  mask_of (length fs) fi = Ok mask ->
+  length mask2 = length (mo_map r) ->
+  (forall j i, nth_error (mo_map r) j = Some i -> nth_error mask2 j = nth_error mask i) ->
+  slice_faces_plane ROps tol eps (mo_v r) (mo_f r) n o (Some (flatnonzero mask2)) = Ok r2 ->
+  Permutation (mesh_tris (mo_v r2) (mo_f r2)) (mesh_tris (mo_v r) (mo_f r)).
+Proof.
+  intros Ht Hvs Hr Hmask Hl2 Hm2 Hr2.
+  destruct (slice_mesh_is_per_face tol eps vs fs n o fi r Hvs Hr) as (mask' & rows & Hm' & Hl & Hrows & Hp).
+  rewrite Hmask in Hm'. injection Hm' as <-.
+  destruct (slice_faces_plane_mapping_len _ _ _ _ _ _ _ _ Hr) as [Hlen _].
+  destruct (mo_v r) as [|v0 vr] eqn:Ev.
+  - unfold slice_faces_plane in Hr2. cbn [length Nat.eqb] in Hr2. injection Hr2 as <-. cbn [mo_v mo_f]. apply Permutation_refl.
+  - rewrite <- Ev in *.
+    assert (Hne : mo_v r <> []) by (rewrite Ev; discriminate).
+    destruct (slice_mesh_is_per_face tol eps (mo_v r) (mo_f r) n o _ r2 Hne Hr2) as (mk2 & rows2 & Hmk2 & Hlr2 & Hrows2 & Hp2).
+    assert (Emk2 : mk2 = mask2).
+    { rewrite <- Hlen, <- Hl2 in Hmk2. pose proof (mask_roundtrip mask2) as RT. rewrite RT in Hmk2. congruence. }
+    subst mk2.
+    destruct (slice_faces_plane_mapping_len _ _ _ _ _ _ _ _ Hr2) as [Hlen2 _].
+    apply (Permutation_map snd) in Hp2. rewrite map_snd_zip in Hp2 by (unfold mesh_tris; rewrite map_length; exact Hlen2).
+    assert (E : forall x, In x (indexed rows2) ->
+                map (fun t' => (fst x, Some t')) (slice_face ROps tol eps n o (fd_m (snd x)) (fd_t (snd x))) =
+                [(fst x, Some (fd_t (snd x)))]).
+    { intros (j & d2) Hx. cbn [fst snd]. apply indexed_In in Hx. destruct (Hrows2 _ _ Hx) as (Hf2 & Hmj & Hlk2).
+      (* the source of output face j *)
+      destruct (nth_error (mo_map r) j) as [i|] eqn:Ei.
+      2:{ apply nth_error_None in Ei. assert (j < length (mo_f r))%nat by (apply nth_error_Some; congruence). lia. }
+      assert (Hz : In (i, Some (fd_t d2)) (zip (mo_map r) (mesh_tris (mo_v r) (mo_f r)))).
+      { apply (nth_error_In _ j). apply nth_error_zip_intro; [exact Ei|]. unfold mesh_tris. rewrite nth_error_map, Hf2.
+        cbn [option_map]. rewrite Hlk2. reflexivity. }
+      apply (Permutation_in _ Hp) in Hz. apply in_flat_map in Hz. destruct Hz as ((i' & d1) & Hid & Hy).
+      cbn [fst snd] in Hy. apply in_map_iff in Hy. destruct Hy as (t' & [= <- Et] & Ht'). subst t'.
+      apply indexed_In in Hid. destruct (Hrows _ _ Hid) as (_ & Hmi & _).
+      rewrite (Hm2 _ _ Ei), Hmi in Hmj. injection Hmj as Hmj.
+      destruct (fd_m d1) eqn:Em1.
+      - rewrite (slice_face_idempotent tol eps n o (fd_t d1) (fd_t d2) Ht Ht' (fd_m d2)). reflexivity.
+      - rewrite <- Hmj. rewrite slice_face_unselected. reflexivity. }
+    assert (EQ : map snd (flat_map (fun x : nat * fdata =>
+                   map (fun t' => (fst x, Some t')) (slice_face ROps tol eps n o (fd_m (snd x)) (fd_t (snd x)))) (indexed rows2)) =
+                 mesh_tris (mo_v r) (mo_f r)).
+    { rewrite (flat_map_ext_in' _ _ _ E). rewrite map_flat_map. cbn [map snd].
+      unfold indexed. rewrite (flat_map_indexed_snd (fun d : fdata => [Some (fd_t d)]) rows2 0). rewrite flat_map_single.
+      unfold mesh_tris. apply map_eq_by_nth; [exact Hlr2|]. intros j d Hj. destruct (Hrows2 _ _ Hj) as (Hf & _ & Hlk).
+      exists (fd_f d). split; [exact Hf|symmetry; exact Hlk]. }
+    rewrite EQ in Hp2. exact Hp2.
 Qed.
